@@ -32,8 +32,12 @@ MANIFEST = {
             "passes merge, operator, engine and "
             "dataset-block checks, that every transform-schema key is a parameter of build_mri_transforms, that every "
             "dataclass default is a value of its declared type, that no dataclass instance is a class-level default, that "
-            "every model class binds the fields of its config class and that every module imports; generic theorems specify the checker (validate accepts exactly the WellTyped trees, "
-            "rejects unknown keys). Differential correspondence runs the real setup_common_environment / setup_engine / "
+            "every model class binds the fields of its config class and that every module imports; all_registered_names_resolve (every model / engine / dataset / masking-function / "
+            "TransformsType name under direct/, every metric, regularizer and loss the files mention); generic theorems specify the "
+            "checker (validate accepts exactly the WellTyped trees, rejects unknown keys). Bridge lemmas: the string arithmetic of "
+            "all eight name look-ups is AST-translated to functions on code points and proved equal to the model's for every name; "
+            "the statement order of setup_common_environment, the shape of dict_flatten and the removed transform keys are "
+            "translated tables satisfying decidable predicates. Differential correspondence runs the real setup_common_environment / setup_engine / "
             "build_transforms_from_environment on all files and on mutated files and diffs verdict and error class.",
     "note": "Partial: instantiation of torch modules, engines, masking functions and transform objects is run (meta device for "
             "all files, CPU for a sample; everything on CPU in the thorough tier), not proved; value-level checks inside "
@@ -63,7 +67,11 @@ RULE = ("one case per shipped YAML file (verdict of the whole pipeline), per mut
         "trivially (Any); distinct = distinct protocol line")
 
 # keys of findings on the current tree that the lead has not yet repaired or listed as known (still reported)
-PENDING_FINDINGS: list[str] = []
+PENDING_FINDINGS: list[str] = [
+    # found in phase 2 (config fields vs. dataset constructor), reported to the lead, not yet repaired / listed
+    "config:dataset-class:CMRxRecon:default-init-TypeError",      # CMRxReconConfig.regex_filter is not a CMRxReconDataset parameter
+    "config:dataset-class:FakeMRIBlobs:default-init-TypeError",   # FakeMRIBlobsConfig lacks sample_size / num_coils / spatial_shape
+]
 
 STAGE = {1: "merge", 2: "operators", 3: "engine", 4: "blocks"}
 N_WORKERS = int(os.environ.get("VERIF_C20_WORKERS", "12"))
@@ -280,6 +288,15 @@ def real_verdict(path: pathlib.Path, file_tree: dict, instantiate: str | None = 
                 engine = E.setup_engine(cfg, instantiate, model, additional, fwd, bwd, False)
         except (Exception, SystemExit) as e:
             res["failures"].append({"stage": "engine-init", "error": _err(e), "message": str(e)[:300], "traceback": _tb(e)})
+    if engine is not None:
+        for what, fn in (("loss-build", lambda: engine.build_loss()),
+                         ("metrics-build", lambda: (engine.build_metrics(cfg.training.metrics),
+                                                    engine.build_metrics(cfg.validation.metrics))),
+                         ("regularizers-build", lambda: engine.build_regularizers(cfg.training.regularizers))):
+            try:
+                fn()
+            except (Exception, SystemExit) as e:
+                res["failures"].append({"stage": what, "error": _err(e), "message": str(e)[:300], "traceback": _tb(e)})
     t2 = time.time()
     built = real_blocks(cfg, file_tree, fwd, bwd, bind_only=False, engine=engine)
     res["t"]["blocks"] = round(time.time() - t2, 2)
@@ -381,6 +398,54 @@ def real_defaults(device: str) -> list[dict]:
             except (Exception, SystemExit) as e:
                 rec.update(ok=False, error=_err(e), message=str(e)[:300], traceback=_tb(e))
             out.append(rec)
+    # default engine of every MRI model: DefaultConfig + the model's default config through the real builders
+    import direct.environment as E
+    from direct.config.defaults import DefaultConfig, TrainingConfig, ValidationConfig
+
+    for name, mri in info.registered_models:
+        if not mri:
+            continue
+        rec = {"kind": "engine", "config": name, "ok": True}
+        try:
+            cfg = OmegaConf.structured(DefaultConfig)
+            mcfg = OmegaConf.structured(E.load_model_config_from_name(name))
+            mcfg.model_name = name
+            cfg.model = mcfg
+            cfg.additional_models = OmegaConf.create({})
+            cfg.training = TrainingConfig
+            cfg.validation = ValidationConfig
+            models = {"model": E.load_model_from_name(name)}
+            with torch.device(device):
+                model, add = E.initialize_models_from_config(cfg, models, TR.fft2, TR.ifft2, device)
+                E.setup_engine(cfg, device, model, add, TR.fft2, TR.ifft2, False)
+        except (Exception, SystemExit) as e:
+            rec.update(ok=False, error=_err(e), message=str(e)[:300], traceback=_tb(e))
+        out.append(rec)
+    # every dataset build_dataset can construct: the fields of its config class bind to its constructor
+    import direct.data.datasets as DS
+
+    for n in info.registered_datasets:
+        rec = {"kind": "dataset-class", "config": n, "ok": True}
+        try:
+            ds_cls = str_to_class("direct.data.datasets", n + "Dataset")
+            cfg = OmegaConf.structured(E.load_dataset_config(n))
+            kwargs = {k: None for k in cfg.keys() if k not in ("name", "transforms")}
+            inspect.signature(ds_cls.__init__).bind(None, transform=None, **kwargs)
+        except (Exception, SystemExit) as e:
+            rec.update(ok=False, error=_err(e), message=str(e)[:300], traceback=_tb(e))
+        out.append(rec)
+    # every TransformsType member builds a pipeline with the default transform configuration
+    from direct.data.mri_transforms import TransformsType
+
+    for member in TransformsType:
+        rec = {"kind": "transforms-type", "config": member.name, "ok": True}
+        try:
+            cfg = OmegaConf.merge(OmegaConf.structured(DC.TransformsConfig), {"transforms_type": member.name})
+            build_mri_transforms(forward_operator=TR.fft2, backward_operator=TR.ifft2, mask_func=None,
+                                 **dict_flatten(remove_keys(cfg, "masking")))
+        except (Exception, SystemExit) as e:
+            rec.update(ok=False, error=_err(e), message=str(e)[:300], traceback=_tb(e))
+        out.append(rec)
     # masking functions with the defaults of MaskingConfig
     for n, c in sorted(vars(S).items()):
         if inspect.isclass(c) and n.endswith("MaskFunc") and not n.startswith("Base") and not inspect.isabstract(c) \
@@ -823,6 +888,140 @@ def correspondence(ctx: Ctx):
                "key": ("resolve4", n), "nontrivial": True, "bucket": "resolve/masking"}
 
 
+    # (5) the registry tables: every registered model / engine / dataset / masking function / TransformsType member /
+    #     referenced metric, regularizer and loss, through the real look-up functions
+    import types
+
+    from direct.engine import Engine
+    from direct.nn.mri_models import MRIModelEngine
+    import direct.data.datasets_config as DC
+
+    def bit(fn):
+        def run():
+            try:
+                r = fn()
+                return "ok 0" if r is False else "ok 1"
+            except (Exception, SystemExit):
+                return "ok 0"
+        return run
+
+    def model_reg(name, mri):
+        E.load_model_from_name(name)
+        OmegaConf.structured(E.load_model_config_from_name(name))
+        if mri:
+            real_engine_class(OmegaConf.create({"model": {"model_name": name, "engine_name": None}}))
+
+    def engine_reach(mod, cls):
+        pkg = mod.split(".")[2]
+        c = real_engine_class(OmegaConf.create({"model": {"model_name": pkg + ".", "engine_name": cls}}))
+        return c.__module__ == mod
+
+    def dataset_reg(n):
+        str_to_class("direct.data.datasets", n + "Dataset")
+        OmegaConf.structured(E.load_dataset_config(n))
+
+    def loss_ok(n):
+        cfg = OmegaConf.create({"training": {"loss": {"losses": [{"function": n, "multiplier": 1.0}]}}})
+        MRIModelEngine.build_loss(types.SimpleNamespace(cfg=cfg, ndim=2))
+
+    tables = [
+        (0, "model", info.registered_models, lambda e: model_reg(*e)),
+        (1, "engine", info.registered_engines, lambda e: engine_reach(*e)),
+        (2, "dataset", info.registered_datasets, dataset_reg),
+        (3, "masking", info.registered_masks, lambda n: str_to_class("direct.common.subsample", n + "MaskFunc")),
+        (4, "transforms-type", info.transforms_types,
+         lambda n: OmegaConf.merge(OmegaConf.structured(DC.TransformsConfig), {"transforms_type": n})),
+        (5, "functional", info.referenced_functionals, lambda n: Engine._build_function_class([n], "direct.functionals", "metric")),
+        (6, "loss", info.referenced_losses, loss_ok),
+        (7, "dataset-base", info.dataset_bases, dataset_reg),
+    ]
+    for kind, label, entries, fn in tables:
+        for i, e in enumerate(entries):
+            yield {"line": line("reg", [kind, i]), "impl": bit(lambda e=e, fn=fn: fn(e)), "key": ("reg", kind, repr(e)),
+                   "nontrivial": True, "bucket": f"registry/{label}"}
+
+
+# --------------------------------------------------------------------------------------------------
+def report_only(info) -> dict:
+    """Dead / unchecked keys of the *untyped* training and validation dataset blocks (never a violation: the real merge
+    replaces the typed list, so these keys are only looked at by whoever consumes them).  Three classes per block:
+      typed-schema-would-reject : key is not a field of the dataset's config class / of TransformsConfig (legacy flat layout …)
+      swallowed-masking-kwarg   : masking key that build_masking_function drops (not a parameter of the mask function)
+      dataset-kwarg-not-a-parameter : dataset-level key that no __init__ in the dataset class's MRO names (swallowed by **kwargs,
+                                   or a TypeError at dataset construction when there is no **kwargs sink)"""
+    import dataclasses
+    import inspect
+
+    import direct.common.subsample as S
+    import direct.data.datasets as DS
+    import direct.data.datasets_config as DC
+
+    agg: dict[tuple, dict] = {}
+
+    def note(cat, key, rel, extra=""):
+        a = agg.setdefault((cat, key, extra), {"blocks": 0, "files": []})
+        a["blocks"] += 1
+        if rel not in a["files"]:
+            a["files"].append(rel)
+
+    def extra_keys(tree, cls, prefix=""):
+        out = []
+        if not isinstance(tree, dict) or not dataclasses.is_dataclass(cls):
+            return out
+        fields = {f.name: f for f in dataclasses.fields(cls)}
+        for k, v in tree.items():
+            if k not in fields:
+                out.append(prefix + str(k))
+                continue
+            f = fields[k]
+            d = None
+            try:
+                d = f.default_factory() if f.default_factory is not dataclasses.MISSING else f.default
+            except Exception:  # noqa: BLE001
+                pass
+            if dataclasses.is_dataclass(d) and not isinstance(d, type):
+                out += extra_keys(v, type(d), prefix + str(k) + ".")
+        return out
+
+    mask_builder = set(inspect.signature(S.build_masking_function).parameters) - {"kwargs"}
+    for rel, tree in info.configs:
+        for sec in ("training", "validation"):
+            for b in ((tree.get(sec) or {}).get("datasets") or []) if isinstance(tree.get(sec), dict) else []:
+                if not isinstance(b, dict):
+                    continue
+                name = b.get("name")
+                cfg_cls = getattr(DC, f"{name}Config", None)
+                for k in extra_keys(b, cfg_cls) if cfg_cls else []:
+                    note("typed-schema-would-reject", k, rel, str(name))
+                m = (b.get("transforms") or {}).get("masking") if isinstance(b.get("transforms"), dict) else None
+                if isinstance(m, dict) and isinstance(m.get("name"), str):
+                    mcls = getattr(S, m["name"] + "MaskFunc", None)
+                    if mcls is not None:
+                        ps = inspect.signature(mcls.__init__).parameters
+                        sink = any(p.kind == p.VAR_KEYWORD for p in ps.values())
+                        for k in m:
+                            if k not in mask_builder and k not in ps:
+                                note("masking-kwarg-swallowed-by-**kwargs" if sink else "swallowed-masking-kwarg", str(k), rel, m["name"])
+                dcls = getattr(DS, f"{name}Dataset", None)
+                if dcls is not None:
+                    named, sink = set(), False
+                    for c in dcls.__mro__:
+                        if "__init__" in vars(c) and c is not object:
+                            ps = inspect.signature(c.__init__).parameters
+                            named |= {p for p, q in ps.items() if q.kind not in (q.VAR_KEYWORD, q.VAR_POSITIONAL)}
+                    sink = any(p.kind == p.VAR_KEYWORD for p in inspect.signature(dcls.__init__).parameters.values())
+                    for k in b:
+                        if k not in ("name", "transforms") and k not in named:
+                            note("dataset-kwarg-not-a-parameter" + ("(swallowed)" if sink else "(TypeError at construction)"),
+                                 str(k), rel, str(name))
+    rows = [{"class": c, "key": k, "of": e, "blocks": v["blocks"], "files": len(v["files"]), "examples": v["files"][:3]}
+            for (c, k, e), v in sorted(agg.items())]
+    return {"note": "report only — untyped training/validation dataset blocks are never merged into the typed schema "
+                    "(ListConfig merge replaces the list); no entry here is a violation",
+            "rows": rows,
+            "dataset_base_classes_without_config": list(info.dataset_bases)}
+
+
 # --------------------------------------------------------------------------------------------------
 def _failure_key(rel: str, f: dict) -> str:
     fns = f.get("functions") or []
@@ -856,6 +1055,10 @@ def oracle(ctx: Ctx, deep: bool = False):
         return
     for rel, why in info.parse_failures:
         yield Violation(f"yaml:{rel}:parse", f"{rel} cannot be parsed: {why}", {"op": "parse", "path": rel, "error": why})
+    try:
+        ctx.notes.append({"report_only_untyped_dataset_blocks": report_only(info)})
+    except Exception as e:  # noqa: BLE001 — a report must never turn into a verdict
+        ctx.notes.append(f"report-only section failed: {e!r}")
     res = _STATE["results"]
     grouped: dict[str, list] = {}
     for key, r in sorted(res.items(), key=lambda kv: repr(kv[0])):
@@ -891,8 +1094,10 @@ def oracle(ctx: Ctx, deep: bool = False):
         if not rec["ok"]:
             if rec["kind"] == "masking" and rec["error"] == "KeyError" and "__load_masks" in rec.get("traceback", ""):
                 key = "code:subsample.CalgaryCampinasMaskFunc:KeyError-float-acceleration"
-            else:
+            elif rec["kind"] == "model":
                 key = f"config:{rec['config']}:default-init-{rec['error']}"
+            else:
+                key = f"config:{rec['kind']}:{rec['config']}:default-init-{rec['error']}"
             yield Violation(key, f"default configuration of {rec['kind']} {rec['config']} cannot be instantiated: "
                                  f"{rec['error']}: {rec['message'][:160]}",
                             {"op": "default", "kind": rec["kind"], "config": rec["config"], "error": rec["error"],
